@@ -293,7 +293,7 @@ def main(tier):
     mods = struct_check.corpus()
     if tier == "quick":
         slow = ("testdata/dynamic_size.emb", "testdata/bcd.emb")  # minutes of solver time; thorough only
-        mods = [m for m in mods if (m[0] in c01.QUICK_MODULES and m[0] not in slow) or not m[0].startswith("testdata/")]
+        mods = [m for m in mods if (m[0] in c01.QUICK_MODULES and m[0] not in slow) or struct_check.in_quick_corpus(m[0])]
     results = struct_check.run_corpus(check_module, {"nmax": 12 if tier == "quick" else 24}, mods)
     tot = {"structures": 0, "compared": 0, "queries": 0, "unsat": 0, "witnesses": 0, "instrs": 0}
     skipped, not_encoded = [], []
